@@ -128,6 +128,10 @@ void restore_context (error_context_t * econ) {
   /* user_parser() clears last_verb only when the verb function returns: an error left it pointing at the verb of the
    * abandoned command (possibly into the dead stack frame of user_parser()) */
   last_verb = econ->save_last_verb;
+  /* the count a `...` spread adds to the next call / efun / array-literal instruction is cleared by that instruction: an
+   * error raised AT it, before it executes (evaluation cost exhausted), left the count set, and the next such instruction of
+   * any later evaluation took that many extra slots from below its arguments */
+  num_varargs = 0;
   DEBUG_CHECK (csp < econ->save_csp, "csp is below econ->csp before unwinding.\n");
   if (csp > econ->save_csp)
     {
